@@ -72,7 +72,13 @@ def case(draw, tier):
                                        array_weight=2))))
     for _ in range(draw(st.integers(0, 2))):
         scripts.append(draw(S.script(S.Cfg(max_items=6, depth=1, regs=draw(st.booleans()), params=draw(st.booleans())))))
-    steps = draw(st.lists(step(), min_size=1, max_size=40 if big else 15))
+    steps = draw(st.lists(step(), min_size=4, max_size=40 if big else 15))
+    # most histories start by making an instance of the first template, so that later mutate steps have a target
+    if draw(st.integers(0, 3)) > 0:
+        first = draw(step())
+        first["k"] = "call"
+        first["i"] = 0 if not (isinstance(scripts[0], dict)) else len([x for x in scripts if isinstance(x, dict)])
+        steps.insert(0, first)
     return {"scripts": scripts, "steps": steps}
 
 
